@@ -33,6 +33,7 @@ import os, sys, json, re, time, random, hashlib, subprocess, fractions, importli
 VERIF = os.environ.get('VERIF_DIR', '/verif')
 COQ_DIR = os.path.join(VERIF, 'coq')
 TL_ROOT = os.environ.get('TL_ROOT', '/repo')
+OUT = os.environ.get('VERIF_OUT', VERIF)          # evidence / replays go elsewhere when a scratch copy of the repository is checked (tools/seeded.py --scratch)
 DEFAULT_SHARD = int(os.environ.get('VERIF_SHARD', '300'))
 JOBS = int(os.environ.get('VERIF_JOBS', '14'))
 GUARD = 'TRACKLIB_VERIF'
@@ -445,15 +446,15 @@ def main(prop, tier='quick', seed=None, replay=None):
                        'coqchk': ({'ok': chk['ok'], 'axioms_of_all_loaded_libraries': chk['axioms']} if chk else 'not run in this tier (thorough only)')},
           'assumptions': list(getattr(mod, 'NOTES', [])) + ['the correspondence is sampling: it never stands in for a theorem'],
           'wall_s': round(time.time() - t0, 2), 'violations': 0 if verdict is None else 1}
-    os.makedirs(os.path.join(VERIF, 'evidence'), exist_ok=True)
+    os.makedirs(os.path.join(OUT, 'evidence'), exist_ok=True)
     if replay_doc is None:
-        json.dump(ev, open(os.path.join(VERIF, 'evidence', prop + '.json'), 'w'), indent=1, default=str)
+        json.dump(ev, open(os.path.join(OUT, 'evidence', prop + '.json'), 'w'), indent=1, default=str)
     for k, f in open_keys.items():
         if k in known_hit:
             print('KNOWN-FINDING: property=%s %s [%s; %d inputs of this run]' % (prop, f['what'], k, len(known_hit[k])))
     print('%s %s: %d theorems %s, %d cases (%d distinct non-trivial), %d model disagreements, %d oracle failures, %.1fs' % (
         prop, tier, len(thm['theorems']), 'checked' if proof_ok else 'NOT CHECKED', tot_eval, tot_distinct, len(disagreements), len(new_fail), time.time() - t0))
-    rdir = os.path.join(VERIF, 'replays'); os.makedirs(rdir, exist_ok=True)
+    rdir = os.path.join(OUT, 'replays'); os.makedirs(rdir, exist_ok=True)
     rp = os.path.join(rdir, '%s-%s-%d.json' % (prop, tier, seed))
     if not verdict and replay_doc is None and os.path.exists(rp):
         os.remove(rp)
